@@ -16,9 +16,38 @@ pub enum Kind {
     TimedOut,
     WouldBlock,
     UnexpectedEof,
+    /// what decompressing / decrypting / decoding adapters report for corrupt input - the same kinds the
+    /// library itself uses for its own verdicts, here coming from the caller's stream
+    InvalidData,
+    InvalidInput,
+    WriteZero,
+    /// kind `InvalidData` carrying a payload of the caller's own error type
+    InvalidDataWithPayload,
+    /// an error made from a raw OS error number (EIO), no payload
+    RawOs,
 }
-pub const KINDS: [Kind; 6] =
-    [Kind::Other, Kind::BrokenPipe, Kind::ConnectionReset, Kind::TimedOut, Kind::WouldBlock, Kind::UnexpectedEof];
+pub const KINDS: [Kind; 11] = [
+    Kind::Other,
+    Kind::BrokenPipe,
+    Kind::ConnectionReset,
+    Kind::TimedOut,
+    Kind::WouldBlock,
+    Kind::UnexpectedEof,
+    Kind::InvalidData,
+    Kind::InvalidInput,
+    Kind::WriteZero,
+    Kind::InvalidDataWithPayload,
+    Kind::RawOs,
+];
+
+#[derive(Debug)]
+struct CallerError(u32);
+impl std::fmt::Display for CallerError {
+    fn fmt(&self, f: &mut std::fmt::Formatter) -> std::fmt::Result {
+        write!(f, "caller's stream error {}", self.0)
+    }
+}
+impl std::error::Error for CallerError {}
 impl Kind {
     pub fn name(self) -> &'static str {
         match self {
@@ -28,6 +57,11 @@ impl Kind {
             Kind::TimedOut => "timed_out",
             Kind::WouldBlock => "would_block",
             Kind::UnexpectedEof => "unexpected_eof",
+            Kind::InvalidData => "invalid_data",
+            Kind::InvalidInput => "invalid_input",
+            Kind::WriteZero => "write_zero",
+            Kind::InvalidDataWithPayload => "invalid_data_with_payload",
+            Kind::RawOs => "raw_os",
         }
     }
     fn parse(s: &str) -> Result<Kind, String> {
@@ -41,6 +75,11 @@ impl Kind {
             Kind::TimedOut => ErrorKind::TimedOut,
             Kind::WouldBlock => ErrorKind::WouldBlock,
             Kind::UnexpectedEof => ErrorKind::UnexpectedEof,
+            Kind::InvalidData => return io::Error::from(ErrorKind::InvalidData), // bare kind, no payload
+            Kind::InvalidInput => ErrorKind::InvalidInput,
+            Kind::WriteZero => ErrorKind::WriteZero,
+            Kind::InvalidDataWithPayload => return io::Error::new(ErrorKind::InvalidData, CallerError(7)),
+            Kind::RawOs => return io::Error::from_raw_os_error(5),
         };
         io::Error::new(k, "injected")
     }
